@@ -37,7 +37,9 @@ def conc_input(x):
     if t == "pair":
         p = (b2py(x["a"]), b2py(x["b"]))
         return list(p) if x.get("l") else p
-    return {"str": "(1, 2)", "float": 1.5, "pairfloat": (1.0, 2.5), "tuple1": (1,), "tuple3": (1, 2, 3)}[t]
+    return {"str": "(1, 2)", "float": 1.5, "pairfloat": (1.0, 2.5), "tuple1": (1,), "tuple3": (1, 2, 3),
+            "tuple3z": (0, 0, 0), "tuple1n": (None,), "list1z": [0], "tuple3n": (None, None, None), "pairstr": ("1", "2"),
+            "tuple0": (), "list0": [], "emptystr": "", "float0": 0.0}[t]
 
 
 def build(s):
